@@ -30,6 +30,11 @@ pub fn prot_palette() -> Vec<RProtected> {
         RProtected { original: None, header: extras.clone() },
         RProtected { original: None, header: cs.clone() },
     ];
+    // received bytes whose parsed view is not equal to itself (NaN) and is not minimally encoded
+    v.push(RProtected {
+        original: Some(vec![0xa1, 0x18, 0x63, 0xfb, 0x7f, 0xf8, 0, 0, 0, 0, 0, 0]),
+        header: RHeader { rest: vec![(l_int(99), Item::float(f64::NAN))], ..Default::default() },
+    });
     // every typed field alone (an emptiness test that forgets a field turns it into h'')
     for h in crate::spaces::c11::single_field_headers().into_iter().skip(1).take(5) {
         v.push(RProtected { original: None, header: h });
